@@ -114,6 +114,17 @@ func RunScenarios(r *report.Run, scen []Scenario, opt Options) {
 	if opt.Monitors == nil {
 		opt.Monitors = func() []Monitor { return []Monitor{NewSafety()} }
 	}
+	if only := os.Getenv("NETSIM_ONLY"); only != "" && r.ReplayPath == "" {
+		// diagnostic aid: restrict the run to the scenarios whose name contains the given text (never exhaustive)
+		var keep []Scenario
+		for _, sc := range scen {
+			if strings.Contains(sc.Cfg.Name, only) {
+				keep = append(keep, sc)
+			}
+		}
+		scen = keep
+		r.NotExhaustive("NETSIM_ONLY=" + only)
+	}
 	start := time.Now()
 	if r.ReplayPath != "" {
 		var rc ReplayCase
